@@ -17,6 +17,8 @@ from enum import IntEnum
 from functools import cached_property
 from typing import BinaryIO, Optional, Union
 
+from space_packet_parser import _verif
+
 logger = logging.getLogger(__name__)
 
 
@@ -327,6 +329,8 @@ def ccsds_generator(
     # ========
     start_time = time.time_ns()
     while True:
+        if _verif.ON:
+            _verif.emit("top", parsed=n_bytes_parsed, total=total_length_bytes)
         if total_length_bytes and n_bytes_parsed == total_length_bytes:
             break  # Exit if we know the length and we've reached it
 
@@ -337,6 +341,8 @@ def ccsds_generator(
         if current_pos > 20_000_000:
             # Only trim the buffer after 20 MB read to prevent modifying
             # the bitstream and trimming after every packet
+            if _verif.ON:
+                _verif.emit("trim", cur=current_pos, buflen=len(read_buffer))
             read_buffer = read_buffer[current_pos:]
             current_pos = 0
 
@@ -355,6 +361,8 @@ def ccsds_generator(
         #   C = (Total Number of Octets in the Packet Data Field) – 1
         n_bytes_data = _extract_bits(header_bytes, 32, 16) + 1
         n_bytes_packet = RawPacketData.HEADER_LENGTH_BYTES + n_bytes_data
+        if _verif.ON:
+            _verif.emit("hdr", cur=current_pos, need=n_bytes_packet, buflen=len(read_buffer))
 
         # Fill the buffer enough to read a full packet, taking into account the user data length
         while len(read_buffer) - current_pos < n_bytes_packet:
@@ -371,6 +379,8 @@ def ccsds_generator(
         # current_pos is still before the header, so we are reading the entire packet here
         packet_bytes = read_buffer[current_pos:current_pos + n_bytes_packet]
         current_pos += n_bytes_packet
+        if _verif.ON:
+            _verif.emit("emit", cur=current_pos, parsed=n_bytes_parsed, n=len(packet_bytes))
         # Wrap the bytes in a RawPacketData object that adds convenience methods for parsing the header
         yield RawPacketData(packet_bytes)
 
